@@ -739,5 +739,41 @@ class Separators(Part):
         return res
 
 
+class PunctuatedWords(Part):
+    name = "words_with_punctuation_inside"
+    desc = ("listed words with each ASCII punctuation character inside (once and doubled; letters outside a-f at both ends), "
+            "alone and next to an ordinary word: the literal word is what gets removed, wherever it occurs")
+
+    def __init__(self, tier, seed):
+        self.tier, self.seed = tier, seed
+
+    def cases(self):
+        import string
+
+        return [{"c": c} for c in string.punctuation]
+
+    def run(self, case):
+        res = Res()
+        c = case["c"]
+        reserved = builtin_reserved()
+        lists = [["g%sh" % c], ["sys%sop" % c], ["k%s%sz" % (c, c)], ["Net%sWorks" % c, "sea"], ["ply", "w%sx" % c]]
+        for words in lists:
+            if "words" in case and case["words"] != words:
+                continue
+            toks = tokens_for(words, reserved, None)
+            lines = case["lines"] if "lines" in case else list(toks) + [a + " " + b for a in toks[:12] for b in toks[:12]]
+            try:
+                got = run_lines(words, None, "saltForTest", lines)
+            except Exception as e:
+                res.evals += 1
+                res.violation("word-list-not-usable|%s" % type(e).__name__,
+                              "words %r: %s: %s" % (words, type(e).__name__, e), dict(case, words=words))
+                continue
+            judge(res, words, None, "saltForTest", lines, got, reserved, dict(case, words=words), "punctuated-word")
+        if "words" not in case:
+            res.samples.append({"character": c, "lists": lists})
+        return res
+
+
 def parts(tier, seed):
-    return [ListsPart(tier, seed), SecretsPart(tier, seed), SeedPart(tier, seed), HistoryPart(tier, seed), OwnOutputWords(tier, seed), SecondAnonymizer(tier, seed), HashCollisions(tier, seed), ScrubbedLines(tier, seed), WithOtherOptions(tier, seed), Separators(tier, seed)]
+    return [ListsPart(tier, seed), SecretsPart(tier, seed), SeedPart(tier, seed), HistoryPart(tier, seed), OwnOutputWords(tier, seed), SecondAnonymizer(tier, seed), HashCollisions(tier, seed), ScrubbedLines(tier, seed), WithOtherOptions(tier, seed), Separators(tier, seed), PunctuatedWords(tier, seed)]
